@@ -885,6 +885,9 @@ func (x *pexec) checkRun(blk *lz.Block, w, n int) {
 	}
 	if len(blk.Literals) > bound {
 		sig := ""
+		if x.spec.Type == "GSAP" && x.gsapWindowBlind(blk, w, n) {
+			sig = "gsap_window_blind"
+		}
 		x.fail("C19", "run_not_compressed", sig, "%s block of %d bytes inside a run of %#x carries %d literals (bound %d)", x.spec.Type, n, c, len(blk.Literals), bound)
 	}
 }
@@ -1226,4 +1229,59 @@ func (x *pexec) doAdvanceW(op *Op) string {
 	x.w += k
 	x.nilSeen = true
 	return fmt.Sprintf("AdvanceW(%d)", k)
+}
+
+// gsapWindowBlind is the predicate of known finding F16: every literal of the
+// block is explained by GSAP choosing its candidate among the suffix-array
+// neighbours without regard to the window: at that position the longest match
+// whose source lies outside the usable window (distance >= WindowSize) is at
+// least as long as the longest match inside it, so the candidate GSAP found
+// was rejected by the window test and the byte became a literal.
+func (x *pexec) gsapWindowBlind(blk *lz.Block, w, n int) bool {
+	S := x.S
+	end := w + n
+	ws := x.bc.WindowSize
+	best := func(lo, hi, pos int) int { // max lcp over sources f in [lo,hi)
+		b := 0
+		if lo < x.off {
+			lo = x.off
+		}
+		for f := lo; f < hi && f < pos; f++ {
+			m := 0
+			for pos+m < end && S[f+m] == S[pos+m] {
+				m++
+			}
+			if m > b {
+				b = m
+			}
+		}
+		return b
+	}
+	pos := w
+	isLit := make([]bool, n)
+	for _, s := range blk.Sequences {
+		for k := 0; k < int(s.LitLen) && pos-w < n; k++ {
+			isLit[pos-w] = true
+			pos++
+		}
+		pos += int(s.MatchLen)
+	}
+	for ; pos < end; pos++ {
+		isLit[pos-w] = true
+	}
+	for i, l := range isLit {
+		if !l {
+			continue
+		}
+		q := w + i
+		in := best(q-ws+1, q, q) // offsets 1..WS-1 (GSAP uses offsets below WindowSize)
+		if in < x.spec.minMatch() {
+			continue // literal justified
+		}
+		out := best(x.off, q-ws+1, q)
+		if out < in {
+			return false
+		}
+	}
+	return true
 }
